@@ -403,6 +403,20 @@ class Parser:
             self.next()
             if self.at("!") and name in KNOWN_MACROS and self.peek(1)[0] == "op" and self.peek(1)[1] == "(":
                 self.next(); self.next()
+                if name == "matches":
+                    saved, self.no_struct = self.no_struct, 0
+                    subject = self.expr()
+                    self.expect(",")
+                    pat = self.pattern()
+                    guard = None
+                    if self.at_id("if"):
+                        self.next()
+                        guard = self.expr()
+                    if self.at(","):
+                        self.next()
+                    self.expect(")")
+                    self.no_struct = saved
+                    return ("matches", subject, pat, guard)
                 return ("macro", name, self.args())
             segs = [name]
             while self.at("::"):
